@@ -1,6 +1,7 @@
 """High-level interface functions to cotengra."""
 
 import functools
+import numbers
 
 import autoray as ar
 
@@ -1138,7 +1139,7 @@ def ncon(arrays, indices, **kwargs):
     # we just need to put negative integers in the output
     for ixs in indices:
         for ix in ixs:
-            if isinstance(ix, int) and ix < 0:
+            if isinstance(ix, numbers.Integral) and ix < 0:
                 output.add(ix)
         inputs.append(tuple(ixs))
 
